@@ -699,7 +699,10 @@ def scorerhi(ctx, z, **kwargs):
     return _scorer(ctx, z, 1, kwargs)
 
 @defun_wrapped
-def coulombc(ctx, l, eta, _cache={}):
+def coulombc(ctx, l, eta):
+    # cached values carry the number type and precision of the context that
+    # computed them, so every context keeps its own cache
+    _cache = ctx._misc_const_cache.setdefault('coulombc', {})
     if (l, eta) in _cache and _cache[l,eta][0] >= ctx.prec:
         return +_cache[l,eta][1]
     G3 = ctx.loggamma(2*l+2)
@@ -735,7 +738,8 @@ def coulombf(ctx, l, eta, z, w=1, chop=True, **kwargs):
     return v
 
 @defun_wrapped
-def _coulomb_chi(ctx, l, eta, _cache={}):
+def _coulomb_chi(ctx, l, eta):
+    _cache = ctx._misc_const_cache.setdefault('_coulomb_chi', {})
     if (l, eta) in _cache and _cache[l,eta][0] >= ctx.prec:
         return _cache[l,eta][1]
     def terms():
@@ -849,7 +853,9 @@ def generalized_bisection(ctx,f,a,b,n):
 def find_in_interval(ctx, f, ab):
     return ctx.findroot(f, ab, solver='illinois', verify=False)
 
-def bessel_zero(ctx, kind, prime, v, m, isoltol=0.01, _interval_cache={}):
+def bessel_zero(ctx, kind, prime, v, m, isoltol=0.01):
+    # isolating intervals are numbers of the context that found them
+    _interval_cache = ctx._misc_const_cache.setdefault('bessel_zero', {})
     prec = ctx.prec
     workprec = max(prec, ctx.mag(v), ctx.mag(m))+10
     try:
